@@ -8,6 +8,9 @@ use crate::refmodel::*;
 use serde_json::json;
 use softposit::{P16E1, P32E2, P8E0};
 
+/// what a `None` from a num_traits spelling is reported as (never a valid expected value)
+const NONE_BITS: u64 = 0xbad0_0000_0000;
+
 pub fn from64<P: PT>(bits: u64, l: &mut Local) -> Result<(), Viol> {
     let f = f64::from_bits(bits);
     let want = match Dy::from_f64(f) {
@@ -33,7 +36,7 @@ pub fn from64<P: PT>(bits: u64, l: &mut Local) -> Result<(), Viol> {
             w
         }
     };
-    for (sp, got) in [("from_f64", guard(|| P::from_f64(f).tb())), ("From<f64>", guard(|| P::conv_from_f64(f).tb()))] {
+    for (sp, got) in [("from_f64", guard(|| P::from_f64(f).tb())), ("From<f64>", guard(|| P::conv_from_f64(f).tb())), ("FromPrimitive::from_f64", guard(|| P::nt_from_f64(f).map(|p| p.tb()).unwrap_or(NONE_BITS))), ("NumCast::from(f64)", guard(|| P::nc_from_f64(f).map(|p| p.tb()).unwrap_or(NONE_BITS)))] {
         l.eval();
         if got.as_ref().ok() != Some(&want) {
             return expect_bits(&format!("{}.{}", P::NAME, sp), &[bits], want, got);
@@ -64,7 +67,7 @@ pub fn from32<P: PT>(bits: u64, l: &mut Local) -> Result<(), Viol> {
             w
         }
     };
-    for (sp, got) in [("from_f32", guard(|| P::from_f32(f).tb())), ("From<f32>", guard(|| P::conv_from_f32(f).tb())), ("from_f64(x as f64)", guard(|| P::from_f64(f as f64).tb()))] {
+    for (sp, got) in [("from_f32", guard(|| P::from_f32(f).tb())), ("From<f32>", guard(|| P::conv_from_f32(f).tb())), ("from_f64(x as f64)", guard(|| P::from_f64(f as f64).tb())), ("FromPrimitive::from_f32", guard(|| P::nt_from_f32(f).map(|p| p.tb()).unwrap_or(NONE_BITS))), ("NumCast::from(f32)", guard(|| P::nc_from_f32(f).map(|p| p.tb()).unwrap_or(NONE_BITS)))] {
         l.eval();
         if got.as_ref().ok() != Some(&want) {
             return expect_bits(&format!("{}.{}", P::NAME, sp), &[bits], want, got);
@@ -105,7 +108,7 @@ pub fn from32_fast(bits: u64, l: &mut Local) -> Result<(), Viol> {
 
 pub fn run(rep: &mut Report) {
     let tier = rep.cfg.tier;
-    rep.rule = "float bit patterns converted to P8E0, P16E1, P32E2 through from_f32/from_f64 and the From impls; expected = posit rounding of the float's exact dyadic value (+-0 -> 0, NaN/inf -> NaR), and from_f32(x) must equal from_f64(x as f64). f64 generator: uniform bits, specials and crate thresholds, exponent-stratified structured mantissas, and the threshold lattice of each target (exact image of an (n+1)-bit threshold, +-1 f64 ulp, +- a far lower sticky bit). f32: same shape; thorough enumerates all 2^32 f32 patterns. Non-trivial = finite non-zero float whose value is not representable in the target; distinct (target, pattern)."
+    rep.rule = "float bit patterns converted to P8E0, P16E1, P32E2 through from_f32/from_f64, the From impls and the num_traits spellings FromPrimitive::from_f32/from_f64 and NumCast::from (generated sections; the complete f32 scan uses the inherent from_f32); expected = posit rounding of the float's exact dyadic value (+-0 -> 0, NaN/inf -> NaR), and from_f32(x) must equal from_f64(x as f64). f64 generator: uniform bits, specials and crate thresholds, exponent-stratified structured mantissas, and the threshold lattice of each target (exact image of an (n+1)-bit threshold, +-1 f64 ulp, +- a far lower sticky bit). f32: same shape; thorough enumerates all 2^32 f32 patterns. Non-trivial = finite non-zero float whose value is not representable in the target; distinct (target, pattern)."
         .into();
     rep.assumptions = std_assumptions();
     super::run_corpus(rep, replay);
